@@ -67,6 +67,8 @@ def setup(root):
                 pass
         elif callable(getattr(val, 'cache_clear', None)):
             _MODULE_CACHES.append(val)
+    from engines import threadsim
+    threadsim.install_dormant(m)
 
 
 def _reset_module_state():
@@ -104,7 +106,22 @@ def _gen_script(rng):
     return out
 
 
+def _gen_threads(rng):
+    """Two or three caller threads, each consuming a jittered backoff_iter of its own (the callers share nothing)."""
+    threads = []
+    for _ in range(rng.choice([2, 2, 3])):
+        threads.append({'start': rng.choice([0.0, 1.0, 0.25, 3.0]), 'stop': rng.choice([1.0, 10.0, 100.0, 3.0]),
+                        'factor': rng.choice([2.0, 1.5, 10.0, 1.0]), 'count': rng.choice([1, 2, 5, 12, 33, 40, 70]),
+                        'jitter': rng.choice([0.1, -0.5, 1.0, True, -1.0, False])})
+        if threads[-1]['stop'] < threads[-1]['start']:
+            threads[-1]['stop'] = threads[-1]['start']
+    return {'mode': 'threads', 'threads': threads, 'script': _gen_script(rng),
+            'sched': {'kind': 'random', 'seed': rng.getrandbits(32), 'p': rng.choice([0.02, 0.1, 0.3])}}
+
+
 def gen_case(rng, tier):
+    if rng.random() < 0.002:
+        return _gen_threads(rng)
     factor = rng.choice([2.0, 2.0, 1.5, 3.0, 10.0, 1.1, 1.0000001, round(rng.uniform(1.01, 4.0), 3)])
     start = rng.choice([0.0, 0.0, 1.0, 0.25, 1.5, 0.001, 1e-9, 3.0, round(rng.uniform(0.0, 5.0), 3)])
     k = rng.randint(0, 12)
@@ -195,6 +212,8 @@ def fixed_cases(tier):
 
 
 def case_size(case):
+    if case.get('mode') == 'threads':
+        return len(case['script']) + sum(t['count'] for t in case['threads'])
     return len(case['script']) + (0 if case['count'] in (None, 'repeat') else abs(case['count'])) + case.get('k_hint', 0)
 
 
@@ -254,26 +273,89 @@ def _close(a, b):
     return a == b or abs(a - b) <= 1e-12 * max(abs(a), abs(b))
 
 
+def _run_threads(case):
+    from engines import threadsim
+    out = core.Outcome()
+    log = core.EventLog(keep=False)
+    rnd = SimRandom(case['script'], log)
+    it.random = rnd
+    _reset_module_state()
+    specs = case['threads']
+    n = len(specs)
+    sched = threadsim.Scheduler(threadsim.make_policy(case['sched'], n), log, step_cap=400000)
+    seen = [[] for _ in specs]
+    errs = [None] * n
+
+    def program(tid, sp):
+        def run():
+            try:
+                g = it.backoff_iter(sp['start'], sp['stop'], count=sp['count'], factor=sp['factor'], jitter=sp['jitter'])
+                for v in g:
+                    seen[tid].append(v)
+                    sched.yield_point(('value', tid, len(seen[tid])))
+                    if len(seen[tid]) > sp['count'] + 3:
+                        break
+            except Exception as e:
+                errs[tid] = e
+        return run
+
+    for tid, sp in enumerate(specs):
+        sched.spawn(program(tid, sp))
+    threadsim.tracing(it, True)
+    try:
+        reason = sched.run()
+    finally:
+        threadsim.tracing(it, False)
+    out.steps = sched.step
+    out.sim_time = float(sum(len(x) for x in seen))
+    if reason in ('deadlock', 'no-progress'):
+        out.fail(reason, sched.step, 'threads that each consume a backoff_iter of their own: %s' % reason, mode='threads')
+    for tid, sp in enumerate(specs):
+        if out.violation is not None:
+            break
+        desc = 'thread %d of %d, own iterator backoff_iter(%r, %r, count=%r, factor=%r, jitter=%r) -> %r' % (
+            tid, n, sp['start'], sp['stop'], sp['count'], sp['factor'], sp['jitter'], seen[tid][:8])
+        if errs[tid] is not None:
+            out.fail('unexpected-exception', len(seen[tid]), '%s: raised %r after %d values, while other threads consumed '
+                     'iterators of their own' % (desc, errs[tid], len(seen[tid])), clause='valid', mode='threads')
+        elif len(seen[tid]) != sp['count']:
+            out.fail('wrong-length', len(seen[tid]), '%s: %d values' % (desc, len(seen[tid])), clause='count', mode='threads')
+        else:
+            j = sp['jitter']
+            jit = 1.0 if j is True else (0.0 if j is False else float(j))
+            ref = _reference(sp['start'], sp['stop'], sp['factor'], max(1, len(seen[tid])))
+            _judge_values(out, seen[tid], ref, jit, sp['stop'], desc, rnd.draws)
+    if out.violation is None and sched.switch_in_traced:
+        out.probe('threads_preempted_inside_backoff_iter')
+        out.nontrivial.append(core.h64(['threads', specs, [(f_, t_) for _s, f_, t_, _w in sched.switches][:40]]))
+    out.fault('scripted_draws', len(rnd.draws))
+    out.digest = log.digest()
+    return out
+
+
 def run_case(case):
+    if case.get('mode') == 'threads':
+        return _run_threads(case)
     out = core.Outcome()
     log = core.EventLog(keep=False)
     rnd = SimRandom(case['script'], log)
     it.random = rnd
     _reset_module_state()
     s, t, f, c, j = case['start'], case['stop'], case['factor'], case['count'], case['jitter']
-    if case.get('prior_count') is not None:
-        # an earlier call in the same process with the same start/stop/factor but another count
-        try:
-            for _i, _v in zip(range(64), it.backoff_iter(S, T, count=case['prior_count'], factor=kw['factor'])):
-                pass
-        except Exception:
-            pass
     valid = _valid(case)
     kw = dict(count=c, factor=f, jitter=j)
     # the same real numbers in another numeric type (the functions convert with float())
     conv = _NUM_TYPES.get(case.get('num_type'), lambda x: x)
     S, T = conv(s), conv(t)
     kw['factor'] = conv(f)
+    if case.get('prior_count') is not None:
+        # an earlier call in the same process with the same start/stop/factor but another count
+        try:
+            for _i, _v in zip(range(64), it.backoff_iter(S, T, count=case['prior_count'], factor=kw['factor'])):
+                pass
+        except (ValueError, TypeError, OverflowError):
+            pass
+        out.probe('prior_call_with_another_count')
     need = None
     if valid and c is None and f == 1.0:
         valid_scope = False          # default count with factor 1 is outside the statement
@@ -315,6 +397,7 @@ def run_case(case):
         need = (to_stop + 4) if endless else (to_stop + 2 if c is None else c)
     vals, exc = [], None
     overrun = False
+    forms = []          # (violation class, what, values) of the list form, judged once the reference is known
     try:
         # always consume the generator form first, bounded: a sequence that does not end where
         # it must is reported, not materialised
@@ -333,10 +416,8 @@ def run_case(case):
             it.random = rnd2
             lst = it.backoff(S, T, **kw)
             it.random = rnd
-            if list(lst) != vals:
-                out.fail('list-form-differs', 0, 'backoff(%r, %r, %r) returned %r, backoff_iter yields %r'
-                         % (s, t, kw, list(lst)[:12], vals[:12]), clause='api')
-            elif isinstance(lst, list):
+            forms.append(('list-form-differs', 'backoff() with the same arguments and draws', list(lst)))
+            if isinstance(lst, list):
                 # a caller may consume or edit its list (pop the delays it has used, append a final
                 # one ...): the next call with equal arguments must be unaffected
                 if case.get('mutate', 'clear') == 'clear':
@@ -346,10 +427,8 @@ def run_case(case):
                 it.random = SimRandom(case['script'], None)
                 again = it.backoff(S, T, **kw)
                 it.random = rnd
-                if list(again) != vals:
-                    out.fail('result-shared-between-calls', 0,
-                             'backoff(%r, %r, %r): after the caller edited the returned list, an equal call returned %r instead of %r'
-                             % (s, t, kw, list(again)[:12], vals[:12]), clause='api')
+                forms.append(('result-shared-between-calls', 'an equal backoff() call after the caller edited the list it was given',
+                              list(again)))
     except Exception as e:
         exc = e
     log.add('vals', repr(vals), type(exc).__name__ if exc else None)
@@ -398,36 +477,20 @@ def run_case(case):
     elif c is None and n == 0:
         out.fail('wrong-length', 0, '%s: default count produced nothing' % desc, clause='default-count')
     if out.violation is None:
-        for i, v in enumerate(vals):
-            b = ref[i]
-            lo, hi = (b * (1 - jit), b) if jit >= 0 else (b, b * (1 - jit))
-            if jit == 0.0:
-                if not _close(v, b):
-                    out.fail('wrong-value', i, '%s: value %d is %r, un-jittered reference %r' % (desc, i, v, b), clause='growth')
-                    break
-                if v > t:
-                    out.fail('exceeds-stop', i, '%s: value %d = %r > stop' % (desc, i, v), clause='cap')
-                    break
-                if i and v < vals[i - 1]:
-                    out.fail('not-monotone', i, '%s: value %d = %r < previous %r' % (desc, i, v, vals[i - 1]), clause='monotone')
-                    break
-            else:
-                if not (math.isfinite(v) and math.isfinite(lo) and math.isfinite(hi)):
-                    if v != v or (not math.isfinite(v) and math.isfinite(lo) and math.isfinite(hi)) \
-                            or (math.isfinite(v) is False and v < 0 and b >= 0):
-                        # NaN is between nothing; an infinite value needs an infinite bound on that side
-                        out.fail('jitter-out-of-bounds', i, '%s: value %d = %r is not a finite number (b=%r, jitter=%r)'
-                                 % (desc, i, v, b, jit), clause='jitter')
-                        break
-                    continue            # the bound itself overflows the float range: nothing to compare with
-                fv = Fraction(v)
-                flo, fhi = Fraction(lo), Fraction(hi)
-                tol = Fraction(1, 10 ** 12) * max(abs(fhi), abs(flo))
-                if not (flo - tol <= fv <= fhi + tol):
-                    out.fail('jitter-out-of-bounds', i,
-                             '%s: value %d = %r outside [%r, %r] (b=%r, jitter=%r, draws=%r)'
-                             % (desc, i, v, lo, hi, b, jit, rnd.draws[:8]), clause='jitter')
-                    break
+        _judge_values(out, vals, ref, jit, t, desc, rnd.draws)
+    for cls, what, fv in forms:
+        if out.violation is not None:
+            break
+        if jit == 0.0 or len(fv) != n:
+            # without jitter the two entry points give the same numbers
+            if fv != vals:
+                out.fail(cls, 0, '%s: %s gave %r' % (desc, what, fv[:12]), clause='api')
+        else:
+            # with jitter an implementation may map draws to positions in its own way: same length, same bounds
+            sub = core.Outcome()
+            _judge_values(sub, fv, ref, jit, t, '%s gave %r' % (what, fv[:12]), rnd.draws)
+            if sub.violation is not None:
+                out.fail(cls, 0, '%s: %s' % (desc, sub.violation['detail']), clause='api')
     if out.violation is None and c is None and jit == 0.0 and vals and vals[-1] != t:
         out.fail('default-count-misses-stop', n - 1, '%s: last value %r is not stop %r' % (desc, vals[-1], t),
                  clause='default-count')
@@ -464,7 +527,59 @@ def run_case(case):
     return out
 
 
+def _judge_values(out, vals, ref, jit, t, desc, draws):
+    """Every value against the un-jittered reference at its position (exact growth without jitter, bounds with)."""
+    if True:
+        for i, v in enumerate(vals):
+            b = ref[i]
+            lo, hi = (b * (1 - jit), b) if jit >= 0 else (b, b * (1 - jit))
+            if jit == 0.0:
+                if not _close(v, b):
+                    out.fail('wrong-value', i, '%s: value %d is %r, un-jittered reference %r' % (desc, i, v, b), clause='growth')
+                    break
+                if v > t:
+                    out.fail('exceeds-stop', i, '%s: value %d = %r > stop' % (desc, i, v), clause='cap')
+                    break
+                if i and v < vals[i - 1]:
+                    out.fail('not-monotone', i, '%s: value %d = %r < previous %r' % (desc, i, v, vals[i - 1]), clause='monotone')
+                    break
+            else:
+                if not (math.isfinite(v) and math.isfinite(lo) and math.isfinite(hi)):
+                    if v != v or (not math.isfinite(v) and math.isfinite(lo) and math.isfinite(hi)) \
+                            or (math.isfinite(v) is False and v < 0 and b >= 0):
+                        # NaN is between nothing; an infinite value needs an infinite bound on that side
+                        out.fail('jitter-out-of-bounds', i, '%s: value %d = %r is not a finite number (b=%r, jitter=%r)'
+                                 % (desc, i, v, b, jit), clause='jitter')
+                        break
+                    continue            # the bound itself overflows the float range: nothing to compare with
+                fv = Fraction(v)
+                flo, fhi = Fraction(lo), Fraction(hi)
+                tol = Fraction(1, 10 ** 12) * max(abs(fhi), abs(flo))
+                if not (flo - tol <= fv <= fhi + tol):
+                    out.fail('jitter-out-of-bounds', i,
+                             '%s: value %d = %r outside [%r, %r] (b=%r, jitter=%r, draws=%r)'
+                             % (desc, i, v, lo, hi, b, jit, draws[:8]), clause='jitter')
+                    break
+
+
 def shrink(case, fails):
+    if case.get('mode') == 'threads':
+        best = case
+        for k in range(len(case['threads'])):
+            if len(best['threads']) > 2:
+                c = dict(best, threads=best['threads'][:k] + best['threads'][k + 1:])
+                if fails(c):
+                    best = c
+        for k in range(len(best['threads'])):
+            for cnt in (1, 2, 5, 12, 33):
+                if cnt < best['threads'][k]['count']:
+                    th = [dict(t) for t in best['threads']]
+                    th[k]['count'] = cnt
+                    c = dict(best, threads=th)
+                    if fails(c):
+                        best = c
+                        break
+        return best
     c = shrinkers.shrink_list_field(case, 'script', fails, min_len=1)
     for simple in ({'jitter': False}, {'api': 'backoff'}, {'factor': 2.0}, {'start': 1.0}, {'start': 0.0},
                    {'count': None}, {'script': [0.5]}, {'script': [0.0]}):
